@@ -58,7 +58,7 @@ def _observe(vec):
 
 def run_factory_part(rep, tier):
     cfg = 'Args_quick.cfg' if tier == 'quick' else 'Args_thorough.cfg'
-    out, st = common.run_tlc('Args', cfg=cfg, workers=8, timeout=1500, xmx='8g')
+    out, st = common.run_tlc('Args', cfg=cfg, workers=8, timeout=1500, xmx='8g', coverage=True)
     rep.add_design('Args', cfg, out, st, 'argument value classes x allowed outcomes; invariants ExclusionsRefused, NeverOtherException, SpellingsAccepted')
     vecs = common.parse_vectors(out)
     rep.notes['arg_vectors_exported_by_tlc'] = len(vecs)
